@@ -4,7 +4,7 @@ Spec: spec/Lexical.tla (character-level recognisers + lexical-to-value mappings 
 family, whitespace facet, integer subtype bounds as digit sequences), spec/Canon.tla (F&O
 19.1.2.2 string forms), spec/CastTable.tla (F&O 19.1 casting matrix Y/N/M + the cast
 function), spec/CastChain.tla (VALUE-STATE MACHINE: state = one typed value under one XSD
-version; actions Construct(T, tokens), Cast(T), Castable(T), ToStr).  TLC checks the laws
+version; actions Pick(T) ; Construct (one literal state per token sequence), Cast(T), Castable(T), ToStr).  TLC checks the laws
 (canonical form is a fixed point of the lexical mapping, round trips along value-preserving
 cell pairs, Y cells total / N cells XPTY0004, inclusive subtype bounds, whitespace facet
 pre-lexical and idempotent, derived lexical spaces inside their base) and dumps the graph.
@@ -15,7 +15,7 @@ Binding A.  Every Construct edge is replayed on the independent code paths
   xp_ctor      xs:T($s)      xp_ctor_u   xs:T($u)  ($u an xs:untypedAtomic variable)
   xp_cast      $s cast as xs:T (and $u)      xp_castable  $s castable as xs:T (and $u)
   xp_string    string(xs:T($s))
-under XPath 2.0 and 3.1 parsers x XSD 1.0/1.1; every Cast / Castable / ToStr edge on the nested
+under the XPath 3.1 parser (thorough: also 2.0) x XSD 1.0/1.1; every Cast / Castable / ToStr edge on the nested
 expression of the source state's history (BFS spanning tree through passing edges only) as
 `E cast as xs:T`, `xs:T(E)`, `E castable as xs:T`, `string(E)`.
 Second oracles for the SPEC (disagreement = MachineryError): python `re` with the patterns
@@ -64,12 +64,12 @@ for _t in ['string', 'normalizedString', 'token', 'language', 'NMTOKEN', 'Name',
 TIERS = {
     # lex: every literal, no casts (Targets empty: only ToStr edges leave the constructed values)
     # cast: shorter literals, full cast fan-out from the constructed values, primitive targets below
-    'quick': [('lex3', dict(MaxLen=3, Depth=3, Fams=set(ALL_FAMS), Targets=set(), Versions={'1.0', '1.1'}, Grid='small')),
-              ('cast2', dict(MaxLen=2, Depth=4, Fams=set(ALL_FAMS), Targets=set(ALL_TYPES), Versions={'1.0', '1.1'}, Grid='small'))],
-    'thorough': [('lex4', dict(MaxLen=4, Depth=3, Fams=set(ALL_FAMS), Targets=set(), Versions={'1.0', '1.1'}, Grid='full')),
-                 ('cast3', dict(MaxLen=3, Depth=4, Fams=set(ALL_FAMS), Targets=set(ALL_TYPES), Versions={'1.0', '1.1'}, Grid='small'))],
+    'quick': [('lex3', dict(MaxLen=3, Depth=4, Fams=set(ALL_FAMS), Targets=set(), Versions={'1.0', '1.1'}, Grid='small')),
+              ('cast2', dict(MaxLen=2, Depth=5, Fams=set(ALL_FAMS), Targets=set(ALL_TYPES), Versions={'1.0', '1.1'}, Grid='small'))],
+    'thorough': [('lex4', dict(MaxLen=4, Depth=4, Fams=set(ALL_FAMS), Targets=set(), Versions={'1.0', '1.1'}, Grid='full')),
+                 ('cast3', dict(MaxLen=3, Depth=5, Fams=set(ALL_FAMS), Targets=set(ALL_TYPES), Versions={'1.0', '1.1'}, Grid='small'))],
 }
-PARSER_VERSIONS = ['2.0', '3.1']
+PARSERS = {'quick': ['3.1'], 'thorough': ['2.0', '3.1']}      # XPath parser versions (each x XSD 1.0 / 1.1)
 NS = {'a': 'urn:a'}
 NOTZ = 9999
 RENDER = {'TAB': '\t', 'NL': '\n', 'CR': '\r'}
@@ -505,23 +505,18 @@ def judge(exp, obs, ver: str, code_matters: bool):
     return None if out is None else f'wrong_{out}'
 
 
-def traits(tokens, fam='') -> str:
+def traits(text: str, fam: str = '') -> str:
     """dumb surface classification of a literal, used only in fingerprints"""
-    ts = list(tokens)
-    if '_' in ts and fam in ('int', 'dec', 'flo'):
+    if '_' in text and fam in ('int', 'dec', 'flo'):
         return 'underscore'
-    for i, t in enumerate(ts):
-        if t == 'NaN' and i > 0 and ts[i - 1] in ('+', '-'):
-            return 'signed_nan'
-        if t == 'INF' and i > 0 and ts[i - 1] == '+':
-            return 'plus_inf'
-    if any(t in WS_TOKENS for t in ts):
-        inner = [t for t in ts]
-        while inner and inner[0] in WS_TOKENS:
-            inner.pop(0)
-        while inner and inner[-1] in WS_TOKENS:
-            inner.pop()
-        return 'ws_inner' if any(t in WS_TOKENS for t in inner) else 'ws_outer'
+    if re.search(r'[+-]NaN', text):
+        return 'signed_nan'
+    if '+INF' in text:
+        return 'plus_inf'
+    if re.search(r'T24:', text):
+        return 'h24'
+    if re.search(r'[ \t\n\r]', text):
+        return 'ws_inner' if re.search(r'[ \t\n\r]', text.strip(' \t\n\r')) else 'ws_outer'
     return 'plain'
 
 
@@ -571,9 +566,9 @@ def construct_worker(job):
         if exp['k'] == 'err' and exp['code'] in ('LIMIT', 'UNSPEC'):
             continue
         fam = FAM_OF[T]
-        tr = traits(tokens, fam)
+        tr = traits(text, fam)
         base = dict(action='Construct', family=fam, type=T, facet=facet, trait=tr, xsd=ver,
-                    expected=('err' if exp['k'] == 'err' else 'value'),
+                    expected=('err' if exp['k'] == 'err' else 'value'), exp_code=exp.get('code', '-'),
                     vclass=(canon_class(exp) if exp['k'] != 'err' else '-'))
 
         def fail(path, outcome, observed, **extra):
@@ -663,7 +658,7 @@ def eq_worker(job):
         for tokens in members[1:]:
             v = py_construct(T, text_of(tokens), ver)[1]
             n += 1
-            base = dict(action='Construct', family=FAM_OF[T], type=T, facet='equality', xsd=ver, trait=traits(tokens, FAM_OF[T]),
+            base = dict(action='Construct', family=FAM_OF[T], type=T, facet='equality', xsd=ver, trait=traits(text_of(tokens), FAM_OF[T]),
                         vclass=canon_class(exp), expected='value')
             try:
                 eq = bool(v == rep) and bool(rep == v) and not bool(v != rep)
@@ -688,16 +683,17 @@ def eq_worker(job):
 # ---- non-Construct edges -------------------------------------------------------------
 
 def chain_worker(job):
-    """edges = (src_expr, text, action, T, ver, src_state, dst_state, pv)"""
+    """edges = (src_expr, text, action, T, ver, src_state, dst_state, pv, expected error code of the cast)"""
     edges = job
     fails = []
     n_eval = 0
-    for (expr, text, action, T, ver, src, exp, pv) in edges:
+    for (expr, text, action, T, ver, src, exp, pv, code) in edges:
         variables = {'s': text}
         sp = PRIM[src['t']]
         base = dict(action=action, family=FAM_OF[T] if T else 'str', type=T or 'string', src_type=src['t'], src_prim=sp,
                     dst_prim=PRIM[T] if T else 'str', xsd=ver, expected=('err' if exp['k'] == 'err' else 'value'),
-                    vclass=canon_class(src), facet='cast', trait='-')
+                    exp_code=code, vclass=canon_class(src), facet='cast',
+                    trait=(traits(text_of(src['s']), FAM_OF[T] if T else '') if src['k'] == 'str' else '-'))
 
         def fail(path, outcome, observed, e):
             f = dict(base, path=path, outcome=outcome, parser=pv)
@@ -710,8 +706,10 @@ def chain_worker(job):
             obs = xp_eval(e, pv, ver, variables)
             n_eval += 1
             want = text_of(exp['s'])
-            if obs != ('val', want) or type(obs[1]) is not str:
+            if obs != ('val', want):
                 fail('xp_string', 'wrong_canonical' if obs[0] == 'val' else f'{obs[0]}:{obs[1]}', obs, e)
+            elif type(obs[1]) is not str:
+                fail('xp_string', f'wrong_class:{type(obs[1]).__name__}', obs, e)
         elif action == 'Castable':
             e = f'{expr} castable as xs:{T}'
             obs = xp_eval(e, pv, ver, variables)
@@ -809,7 +807,8 @@ def run(chk: core.Check) -> None:
             if a == 'ToStr':
                 canon_of[s] = text_of(g.states[d]['val']['s'])
         # ---- Construct edges
-        cons = [(s, d, args) for s, d, a, args in g.edges if a == 'Construct']
+        # a Construct edge leaves a literal state [k |-> "lit", t, ts]
+        cons = [(s, d, (g.states[s]['val']['t'], g.states[s]['val']['ts'])) for s, d, a, args in g.edges if a == 'Construct']
         cons.sort(key=lambda e: (g.states[e[0]]['ver'], e[2][0], len(e[2][1]), e[2][1]))
         int_valid = {(g.states[s]['ver'], args[1]) for s, d, args in cons
                      if args[0] == 'integer' and g.states[d]['val']['k'] != 'err'}
@@ -826,7 +825,7 @@ def run(chk: core.Check) -> None:
         chk.add('distinct_nontrivial', len(nontrivial))
         for j in jobs[:: max(1, n_cons // 5)][:5]:
             chk.sample(dict(action='Construct', type=j[1], literal=text_of(j[2]), xsd=j[3], expected=j[4], canonical=j[5]))
-        results = core.pool_map(construct_worker, [(c, PARSER_VERSIONS) for c in core.chunked(jobs, 128)])
+        results = core.pool_map(construct_worker, [(c, PARSERS[chk.tier]) for c in core.chunked(jobs, 128)])
         oracle_msgs = []
         passed = {}
         for n_eval, fails, omsgs, pas in results:
@@ -850,20 +849,21 @@ def run(chk: core.Check) -> None:
                 chk.fail(feat, case, exp, obs, what=what)
         # ---- chains: BFS spanning tree through passing edges only
         hist = {}      # (state id, parser) -> (expr, text)
-        for pv in PARSER_VERSIONS:
+        chain_parsers = PARSERS[chk.tier]
+        for pv in chain_parsers:
             for i, (s, d, args) in enumerate(cons):
                 T, tokens = args
                 if g.states[d]['val']['k'] in ('err',) or (T == 'QName' and pv == '2.0'):
                     continue
                 if passed.get(i, ({}, None))[0].get(pv) and (d, pv) not in hist:
                     hist[(d, pv)] = (f'xs:{T}($s)', text_of(tokens))
-        chain_edges = [(s, d, a, args) for s, d, a, args in g.edges if a != 'Construct']
+        chain_edges = [(s, d, a, args) for s, d, a, args in g.edges if a not in ('Construct', 'Pick')]
         by_src = {}
         for e in chain_edges:
             by_src.setdefault(e[0], []).append(e)
         unreached = 0
         n_chain = 0
-        for pv in PARSER_VERSIONS:
+        for pv in chain_parsers:
             frontier = deque(sorted(s for (s, p) in hist if p == pv))
             done = set()
             while frontier:
@@ -877,6 +877,7 @@ def run(chk: core.Check) -> None:
                     expr, text = hist[(s, pv)]
                     src = g.states[s]['val']
                     ver = g.states[s]['ver']
+                    cast_dst = {args[0]: g.states[d]['val'] for (_, d, a, args) in by_src.get(s, ()) if a == 'Cast'}
                     for (_, d, a, args) in by_src.get(s, ()):
                         T = args[0] if args else None
                         if T == 'QName' and (pv == '2.0' or src['t'] == 'untypedAtomic'):
@@ -884,8 +885,9 @@ def run(chk: core.Check) -> None:
                         exp = g.states[d]['val']
                         if exp['k'] == 'err' and exp['code'] in ('LIMIT', 'UNSPEC'):
                             continue
-                        batch.append((expr, text, a, T, ver, src, exp, pv, d))
-                res = core.pool_map(chain_worker, [[b[:8] for b in c] for c in core.chunked(batch, 64)]) if batch else []
+                        code = cast_dst.get(T, {}).get('code', '-') if a == 'Castable' else exp.get('code', '-')
+                        batch.append((expr, text, a, T, ver, src, exp, pv, code, d))
+                res = core.pool_map(chain_worker, [[b[:9] for b in c] for c in core.chunked(batch, 64)]) if batch else []
                 failed_exprs = set()
                 for n_eval, fails in res:
                     chk.add('evaluations', n_eval)
@@ -893,7 +895,7 @@ def run(chk: core.Check) -> None:
                         failed_exprs.add((case['expr'], case['s']))
                         chk.fail(feat, case, exp, obs, what=f"{case['expr']} with $s = {case['s']!r}")
                 n_chain += len(batch)
-                for (expr, text, a, T, ver, src, exp, pv_, d) in batch:
+                for (expr, text, a, T, ver, src, exp, pv_, code_, d) in batch:
                     if a == 'Castable' or exp['k'] in ('err',) or (d, pv) in hist:
                         continue
                     if exp['k'] in ('dec', 'flo') and exp['ap']:
